@@ -6,7 +6,7 @@ from checks import gb_src, c41
 META = {
     "engine": "gen", "level": "exploration", "design_ref": "DESIGN.md §4.4 C44",
     "technique": "metamorphic relations on generated behaviours called through ctypes: same loading embedded in 1D/2D/3D hypotheses, rotated 3D loading, plane-stress steps replayed in the strain-driven hypothesis; rotate* helper functions of orthotropic generic behaviours compared with numpy rotations built from 3x3 matrix products",
-    "text": "Isotropic behaviours of C41 (Default elasticity, Implicit Norton, isotropic creep and plasticity DSLs, brick plasticity, a Runge-Kutta Norton; more in thorough) are integrated for random loadings representable in several hypotheses (axisymmetrical generalised plane strain -> axisymmetrical / plane strain / generalised plane strain -> tridimensional) and the stress and every internal state variable are compared component-wise; a random rotation of a 3D loading (state included) must rotate stress, tensorial state variables and the consistent tangent operator; plane stress and axisymmetrical generalised plane stress results must have the zero / prescribed axial stress, and replaying the step in the strain-driven hypothesis with the axial strain found must give the same response. For orthotropic generic behaviours (small strain with orthotropic and isotropic constants, all hypotheses; the reference finite-strain orthotropic Saint-Venant Kirchhoff file) every exported rotateGradients / rotateThermodynamicForces[_CauchyStress|_PK1Stress|_PK2Stress] / rotateTangentOperatorBlocks[_dsig_dF|_dPK1_dF|_dPK2_dEGL|_dtau_ddF] function, its array variant and in-place use are compared with numpy (g_m = M g M^T, f_g = M^T f_m M, K_g = Q_out K_m Q_in^T, M = documented global->material matrix, column-major); with isotropic constants, integrating in any material frame and rotating back must reproduce the unrotated response.",
+    "text": "Isotropic behaviours of C41 (Default elasticity, Implicit Norton, isotropic creep and plasticity DSLs, brick plasticity, a Runge-Kutta Norton; more in thorough) are integrated for random loadings representable in several hypotheses (axisymmetrical generalised plane strain -> axisymmetrical / plane strain / generalised plane strain -> tridimensional) and the stress and every internal state variable are compared component-wise; a random rotation of a 3D loading (state included) must rotate stress, tensorial state variables and the consistent tangent operator; plane stress and axisymmetrical generalised plane stress results must have the zero / prescribed axial stress, and replaying the step in the strain-driven hypothesis with the axial strain found must give the same response. For orthotropic generic behaviours (small strain with orthotropic and isotropic constants, all hypotheses; the reference finite-strain orthotropic Saint-Venant Kirchhoff file) every exported rotateGradients / rotateThermodynamicForces[_CauchyStress|_PK1Stress|_PK2Stress] / rotateTangentOperatorBlocks[_dsig_dF|_dPK1_dF|_dPK2_dEGL|_dtau_ddF] function, its array variant and in-place use are compared with numpy (g_m = M g M^T, f_g = M^T f_m M, K_g = Q_out K_m Q_in^T, M = documented global->material matrix, column-major); with isotropic constants, integrating in any material frame and rotating back must reproduce the unrotated response. Orthotropic axes conventions: orthotropic elasticity with three distinct Young moduli and Poisson ratios, stiffness computed by TFEL from the nine constants, for (convention, family) in {Pipe, Plate} x {Default DSL + @ComputeStiffnessTensor, Implicit DSL + StandardElasticity brick} and Default x {@RequireStiffnessTensor}, in every hypothesis the convention allows: stress and operator are compared with the reduction (permutation of the Pipe convention, plane stress / prescribed axial stress condensation) of a 3D stiffness built with numpy from the compliance, with the Tridimensional entry point of the same library given the same loading, and, for a loading given in a rotated global frame, through rotateGradients / rotateThermodynamicForces / rotateTangentOperatorBlocks against the numpy rotation of that reference; a minimum count per (convention, family, hypothesis) is required.",
     "note": "Trusted: the convention documented in docs/web/generic-behaviours-interface.md; numpy. Tolerances: 200 (n+2) epsilon on strains for iterative schemes (epsilon = 1e-14 set at run time), roundoff for explicit ones and for the rotation helpers. 2D rotations are about the third axis; no rotation in 1D.",
 }
 
@@ -41,5 +41,18 @@ def run(ctx):
                 ":rotateGradients", ":rotateThermodynamicForces", ":rotateTangentOperatorBlocks", "_dPK1_dF", "_PK1Stress", ":frame-invariance",
                 "rotateArrayOfTangentOperatorBlocks"):
         ctx.require(seen(sub) >= n, "no judged case for stratum *%s*" % sub)
+    # orthotropic axes conventions: every (family/convention, hypothesis the convention allows) is a planned stratum
+    plan = {"VfOrthoC_Pipe": ["AxisymmetricalGeneralisedPlaneStrain", "Axisymmetrical", "PlaneStress", "PlaneStrain", "GeneralisedPlaneStrain", "Tridimensional"],
+            "VfOrthoC_Plate": ["PlaneStress", "PlaneStrain", "GeneralisedPlaneStrain", "Tridimensional"],
+            "VfOrthoR_Default": ["AxisymmetricalGeneralisedPlaneStrain", "Axisymmetrical", "PlaneStress", "PlaneStrain", "GeneralisedPlaneStrain", "Tridimensional"],
+            "VfOrthoB_Pipe": ["AxisymmetricalGeneralisedPlaneStrain", "AxisymmetricalGeneralisedPlaneStress", "Axisymmetrical", "PlaneStress", "PlaneStrain",
+                              "GeneralisedPlaneStrain", "Tridimensional"],
+            "VfOrthoB_Plate": ["PlaneStress", "PlaneStrain", "GeneralisedPlaneStrain", "Tridimensional"]}
+    for bn, hs in plan.items():
+        for h in hs:
+            for what in ["stress-vs-3D-stiffness", "operator-vs-3D-stiffness"] + (["stress-vs-Tridimensional"] if h != "Tridimensional" else []) + \
+                    (["rotated-stress", "rotated-operator"] if not h.startswith("AxisymmetricalGeneralised") else []):
+                k = "%s:%s:%s" % (bn, h, what)
+                ctx.require(tab.get(k, {}).get("n", 0) >= n, "planned stratum %s judged %d times, %d planned" % (k, tab.get(k, {}).get("n", 0), n))
     ctx.require(not any(k.startswith("missing-symbol") or ":missing-symbol:" in k for k in ctx.cov.get("counters", {})),
                 "a documented rotate* function is not exported: %s" % [k for k in ctx.cov.get("counters", {}) if "missing-symbol" in k])
